@@ -21,7 +21,7 @@ RULE = ('random program (1 byte..41K; uniform, offset-tagged, all-ones, zero, te
         'the last four stack bytes lie inside / are cut by the end / start below the data, or the data lies inside the 14 stack bytes; '
         '--clear: CLEAR from the documented minimum (23952/23972, 23957/23977 on 128K) upwards, data above CLEAR or in free memory '
         'below the BASIC stack; 128K: 131072-byte file, --7ffd 0..63, --banks default / subset in any order / ",", --loader default '
-        '(CLEAR+1, possibly over the main block) or elsewhere - x {tap,pzx} x {no screen, 6912-byte screen} x one simulated-LOAD '
+        '(CLEAR+1, possibly over the main block) or elsewhere - x {tap,pzx} x {no screen, 6912-byte screen, shorter screen file} x one simulated-LOAD '
         'configuration from C13\'s matrix (python 0/1, fast-load 0/1, cmio 0/1, accelerator auto/none/rom/list/named, '
         'accelerate-dec-a 0..3, pause 0/1) x machine 48/128 x {z80,szx} output x --start given or not (where tap2sna does not need it). '
         'A case is non-trivial when both tools ran to completion, at least one byte was compared and at least one option other than '
@@ -37,7 +37,7 @@ ASSUMPTIONS = [
     'the generator stays inside the documented domain: BEGIN >= 16384, ORG <= BEGIN < END <= ORG+length, STACK >= 16398 and not within '
     '23297..23800 (its 14 bytes would hit the not-yet-executed loader at 23296 or interrupt-written system variables), START in RAM '
     'and not inside the loader code itself, CLEAR >= the documented minimum and < 49152 on 128K tapes, data above CLEAR (or in free '
-    'memory at least 320 bytes below it), --7ffd within 0..63 and not 0x20..0x2F (paging locked with the editor ROM selected: its interrupt routine cannot page ROM 1 in and the machine crashes at the first interrupt after the EI of the bank loader, a race that depends on the tape length), END <= 49152 on 128K tapes, screen files of exactly 6912 bytes; '
+    'memory at least 320 bytes below it), --7ffd within 0..63 and not 0x20..0x2F (paging locked with the editor ROM selected: its interrupt routine cannot page ROM 1 in and the machine crashes at the first interrupt after the EI of the bank loader, a race that depends on the tape length), END <= 49152 on 128K tapes, screen files of exactly 6912 bytes with --clear, and of at most 6912 bytes without it (bin2tap pads the loader block that carries the screen with zeros); '
     '-p 0 / -o 0 / -s 0 are outside it (STACK must be at least 16398)',
     'with --clear the stack pointer is "left alone": the check requires RAMTOP == CLEAR and SP within the 64 bytes below CLEAR, not an '
     'exact value',
@@ -292,7 +292,7 @@ def check_case(shard, spec, cfg, tag='', stem='p'):
         # ---- not judged: loading screen
         if spec['scr'] is not None and not problems:
             scr_now = mem.slice(16384, G.SCR_LEN)
-            shard.hist('screen', 'equals the screen file' if scr_now == spec['scr'] else 'differs (data/loader/stack lie in the display file or text was printed)')
+            shard.hist('screen', 'equals the screen file' if scr_now == bytes(spec['scr']) + bytes(G.SCR_LEN - len(spec['scr'])) else 'differs (data/loader/stack lie in the display file or text was printed)')
         # ---- the BASIC loader bin2tap wrote must be a well-formed program: its lines tile PROG..VARS exactly
         if spec['clear'] is not None and not problems:
             bp = basic_program_problem(mem)
